@@ -1314,6 +1314,21 @@ run_orders(Out& o, Case& k, vh::Rng& rng, bool thorough, std::map<std::string, l
                           + first_bad_order + " but succeeds in other orders; " + c.str());
     }
   // longer random histories (all six kinds of request), for the flag machine of the model
+  // ORACLE ("the results do not depend on the order of first requests after set-up"): every request of every history must give,
+  // bit for bit, what a freshly set-up object gives when that request is the first one it serves
+  static const char* all6[] = { "value", "gradient", "gps", "sensitivity", "hessian", "ahessian" };
+  std::map<std::string, ReqResult> fresh_first;
+  for (const char* req : all6)
+    {
+      Holder obj(0);
+      configure(*obj, k, n);
+      if (!guarded([&] {
+            if (obj->set_up(k.image) != Succeeded::yes)
+              throw 1;
+          }))
+        continue;
+      fresh_first[req] = serve(*obj, k, req, *lam_im, *x_im);
+    }
   const int nh = thorough ? 40 : 10;
   for (int h = 0; h < nh; ++h)
     {
@@ -1335,6 +1350,18 @@ run_orders(Out& o, Case& k, vh::Rng& rng, bool thorough, std::map<std::string, l
           const ReqResult r = serve(*obj, k, req, *lam_im, *x_im);
           op += " " + req;
           ans += std::string(ans.empty() ? "" : " ") + (r.ok ? "1" : "0");
+          auto it = fresh_first.find(req);
+          if (it != fresh_first.end())
+            {
+              ++o.checks;
+              if (!it->second.same(r))
+                {
+                  o.fail("order of requests: '" + req + "' as request number " + std::to_string(i + 1) + " of the history `" + op
+                         + "` " + (r.ok ? "gives a different result than" : "fails, whereas it succeeds")
+                         + " as the first request of a freshly set-up object; " + c.str());
+                  break;
+                }
+            }
         }
       o.line(op, ans);
       ++hist["orders-histories"];
